@@ -29,6 +29,9 @@ impl BlockParser {
     // Generate tokens for input range
     //
     pub fn tokenize(&self, state: &mut BlockState) {
+        #[cfg(markdown_it_verif)]
+        let _gauge = crate::verif::enter();
+
         let mut has_empty_lines = false;
 
         while state.line < state.line_max {
